@@ -917,7 +917,9 @@ impl Xot {
         // text node reconciliation and document element detection
         replaced_node.get().remove_subtree(self.arena_mut());
         // now insert the replacing node
-        if let Some(previous_node) = previous_node {
+        if previous_node == Some(replacing_node) {
+            // the replacing node preceded the replaced node: it is in place
+        } else if let Some(previous_node) = previous_node {
             self.insert_after(previous_node, replacing_node)?;
         } else {
             self.prepend(parent, replacing_node)?;
